@@ -394,6 +394,9 @@ func (c *checkCtx) report(t0 time.Time, verbose bool) int {
 			if ob.Cover {
 				if verbose {
 					fmt.Printf("  [%s] #%d %s (%s, %d ms)\n", ob.Status, ob.ID, ob.Name(), ob.Solver, ob.Ms)
+				if ob.Kind == "contract" && ob.Status == "failed" {
+					fmt.Printf("      contract error: %s\n", truncate(ob.Output, 400))
+				}
 				}
 				covers++
 				switch ob.Status {
@@ -452,6 +455,9 @@ func (c *checkCtx) report(t0 time.Time, verbose bool) int {
 			}
 			if verbose {
 				fmt.Printf("  [%s] #%d %s (%s, %d ms)\n", ob.Status, ob.ID, ob.Name(), ob.Solver, ob.Ms)
+				if ob.Kind == "contract" && ob.Status == "failed" {
+					fmt.Printf("      contract error: %s\n", truncate(ob.Output, 400))
+				}
 			}
 		}
 	}
